@@ -8,7 +8,7 @@
    malformed ones); any max-replicas, location labels, isolation level, switches; any placement-rule fit.
    The model is set-valued: `model_check inp` lists every answer the code may give (a float score, a map
    order or rand decide among them); a theorem about every element is a theorem about whatever is chosen. *)
-From PDV Require Import lib.C10_Cluster lib.C10_StepFacts gen.Gen_C10 model.C10_Checker proof.C10_Tables proof.C10_Steps proof.C10_CheckerProof.
+From PDV Require Import lib.C10_Cluster lib.C10_StepFacts gen.Gen_C10 model.C10_Checker proof.C10_Tables proof.C10_Pins proof.C10_Steps proof.C10_CheckerProof.
 Local Open Scope list_scope.
 Local Open Scope Z_scope.
 
@@ -47,6 +47,24 @@ Theorem C10_controller_removes_only_justified :
     \/ ((exists o rest, fit_orphans (i_fit inp) = o :: rest /\ p_store o = s) /\ forallb rf_satisfied (fit_rules (i_fit inp)) = true).
 Proof. exact controller_removes_only_justified. Qed.
 
+(* CheckRegion as a whole: an operator comes from the joint-state checker, or (that one admitting none) from the repair checkers,
+   or - only when they too allow none - from the merge checker *)
+Theorem C10_controller_origin :
+  forall inp x, In (Some x) (controller_check inp) ->
+    In (Some x) (joint_stage inp)
+    \/ (In None (joint_stage inp) /\ (In (Some x) (front_check inp) \/ (In None (front_check inp) /\ In (Some x) (merge_stage inp)))).
+Proof. exact controller_origin. Qed.
+
+(* ... and the merge checker proposes a merge only when it is active, the region is healthy (no down / pending peer, no learner
+   without placement rules), fully replicated, not hot, the chosen neighbour is mergeable (adjacent keys, no rule boundary), healthy,
+   fully replicated, not hot, not larger than 500, and neither region is in a joint state *)
+Theorem C10_merge_only_when_settled :
+  forall inp o, In (Some (StMerge, o)) (merge_stage inp) ->
+    me_on (i_menv inp) = true /\ region_healthy inp = true /\ region_replicated inp = true /\ me_hot (i_menv inp) = false
+    /\ exists t, merge_target inp = Some t /\ merge_target_ok inp t = true /\ n_size t <= max_target_region_size
+       /\ in_joint (peers (i_region inp)) = false /\ in_joint (n_peers t) = false.
+Proof. exact merge_only_when_settled. Qed.
+
 (* 3. a replacement adds the new peer before it removes the old one.
    (a) the verified checker run on every operator of the implementation: a step list in which every prefix
        adds at least as many peers as it removes never takes ANY region (with at most one peer per store) on
@@ -60,28 +78,18 @@ Theorem C10_one_peer_per_store_invariant :
   forall xs s tr, run_steps s xs = Some tr -> NoDup (stores_of (rs_peers s)) -> Forall (fun s' => NoDup (stores_of (rs_peers s'))) tr.
 Proof. exact run_steps_nodup. Qed.
 
-(* (b) the plan the builder gives to a replacement (model: plan_of; the implementation's steps are compared
-       with it step by step in every case).  The full clause is FALSE on the unchanged tree: *)
-Definition C10_replace_is_add_then_remove_full : Prop :=
+(* (b) the plan the builder gives to a replacement (model: plan_of; the implementation's steps are compared with it step by
+       step in every case): add-before-remove at full strength, with and without joint consensus and whatever the kinds of the
+       old and the new peer (code after the builder fix "adds the replacement peer before it removes the replaced one also
+       when their kinds differ"; before it a learner replaced by a voter without joint consensus was removed first) *)
+Theorem C10_replace_is_add_then_remove :
   forall joint r old new lrn id pl, plan_of joint r (AReplace old new lrn) id = Some pl -> balanced_prefixes pl = true.
-
-(* witness: joint consensus off, region {1 voter leader, 2 learner, 3 voter}, replace the learner on store 2 by
-   a voter on store 9 (what checkLocationReplacement / fixPeer request for a learner): the plan is
-   "remove peer on 2, add learner on 9, promote" *)
-Theorem C10_replace_is_add_then_remove_refuted : ~ C10_replace_is_add_then_remove_full.
-Proof.
-  intros H. destruct plan_replace_unbalanced_witness as (pl & Hp & Hb).
-  rewrite (H _ _ _ _ _ _ _ Hp) in Hb. discriminate.
-Qed.
-
-(* true with joint consensus, and without it whenever old and new peer are of the same kind *)
-Theorem C10_replace_is_add_then_remove_partial :
-  forall joint r old new lrn id pl po,
-    plan_of joint r (AReplace old new lrn) id = Some pl ->
-    peer_on (peers r) old = Some po ->
-    (joint = true \/ is_learner po = lrn) ->
-    balanced_prefixes pl = true.
 Proof. exact plan_replace_balanced. Qed.
+
+Example C10_replace_mixed_regression :
+  let r := Region [Peer 1 1 Voter; Peer 2 2 Learner; Peer 3 3 Voter] (Some (Peer 1 1 Voter)) [] [] in
+  plan_of false r (AReplace 2 9 false) 100 = Some [AddLearnerS 9 100; PromoteLearnerS 9 100; RemovePeerS 2].
+Proof. exact plan_replace_mixed_regression. Qed.
 
 (* 4. fewer peers than max-replicas and SelectStoreToAdd has a candidate (a store that passes every filter
    of it, in particular is not excluded by the isolation level): an operator is proposed, whatever the
@@ -109,9 +117,10 @@ Print Assumptions C10_checker_targets_good.
 Print Assumptions C10_replica_removes_only_surplus.
 Print Assumptions C10_rule_removes_only_orphans.
 Print Assumptions C10_controller_removes_only_justified.
+Print Assumptions C10_controller_origin.
+Print Assumptions C10_merge_only_when_settled.
 Print Assumptions C10_balanced_plan_never_dips.
 Print Assumptions C10_one_peer_per_store_invariant.
-Print Assumptions C10_replace_is_add_then_remove_refuted.
-Print Assumptions C10_replace_is_add_then_remove_partial.
+Print Assumptions C10_replace_is_add_then_remove.
 Print Assumptions C10_repair_proposed_when_possible.
 Print Assumptions C10_rule_repair_proposed_when_possible.
